@@ -3,7 +3,7 @@ The invariant `every call on a colour of the statement's domain returns finite c
 judged by TLC (spec/trace/TraceFinite.tla, which also decides membership in the domain from the documented bounds
 of spec/Types.tla) over the boundary lattice x the API surface: every conversion pair, the clamp family, and - as
 the other modules' drivers are built - operators, blends and differences."""
-import json, random
+import json, random, itertools
 from common import *
 from colours import *
 
@@ -53,6 +53,34 @@ def coords_of(ev, why):
     return d
 
 
+STD_NODES = {"xyz": NODES["xyz"], "lab": NODES["lab"], "xyz50": [(0, 0.96422), (0, 1), (0, 0.82521)], "lab50": NODES["lab"],
+             "lch50": NODES["lch"], "luv50": NODES["luv"], "xyzdci": [(0, 0.89459), (0, 1), (0, 0.95442)], "labdci": NODES["lab"]}
+for _n in ("srgb", "linsrgb", "adobe", "linadobe", "p3", "linp3", "rec2020", "linrec2020", "rec709", "prophoto", "linprophoto", "dcip3", "lindcip3"):
+    STD_NODES[_n] = NODES["srgb"]
+for _n in ("hsv_adobe", "hsl_p3", "hwb_rec2020", "hsv_prophoto"):
+    STD_NODES[_n] = NODES["hsv"]
+
+
+def gen_std(ctx, path):
+    """the boundary lattice of the other RGB standards and white points (convstd* binaries); pairs that do not exist
+    (different white points) are recorded as missing and not judged"""
+    rnd = random.Random(ctx.seed + 3)
+    c = Cmds(path)
+    names = list(STD_NODES)
+    for A in names:
+        axes = [[0.0, 60.0, 180.0, 359.999] if r is None else in_lattice(*r) for r in STD_NODES[A]]
+        pts = list(itertools.product(*axes))
+        if A.startswith("hwb"):
+            pts = [p for p in pts if p[1] + p[2] <= 1.0]
+        if ctx.quick and len(pts) > 60:
+            pts = rnd.sample(pts, 60)
+        for p in pts:
+            for B in names:
+                if A != B:
+                    c.add(**{"from": A, "in": p, "path": [B], "mode": "u"})
+    return c.close()
+
+
 def other_surfaces(ctx):
     """operators (C10 driver) and blends / compositing (C08 driver) on their quick lattices, judged for finiteness here"""
     bins = cargo_build(["ops", "blend"])
@@ -87,6 +115,19 @@ def run(ctx):
             d = coords_of(ev, why)
             what = "%s %s -> %s: %s for input %s" % (ev.get("t"), d.get("from"), d.get("to"), why,
                                                      [dy_to_float(x) for x in (ev["vals"][0] if "vals" in ev else ev["in"])])
+            report(ctx, d, what, {"bin": b, "event": ev, "trace_line": line})
+    sbins = cargo_build(["convstd64", "convstd32"])
+    scmds = ctx.p("c07std.cmds")
+    log("C07: %d commands on the other standards" % gen_std(ctx, scmds))
+    for b in ("convstd64", "convstd32"):
+        tp = ctx.p("c07.%s.ndjson" % b)
+        run_bin(sbins[b], ["--cmds", scmds, "--out", tp])
+        res = validate_trace(ctx, "TraceFinite", tp, stateless=True, chunk_events=8000, tag="c07." + b)
+        ctx.cov["traces_validated_against_impl"] += res.events - len(res.rejected)
+        for (line, ev, info, _) in res.rejected:
+            why = info.strip().strip('"')
+            d = coords_of(ev, why)
+            what = "%s %s -> %s: %s for input %s" % (ev.get("t"), d.get("from"), d.get("to"), why, [dy_to_float(x) for x in ev["vals"][0]])
             report(ctx, d, what, {"bin": b, "event": ev, "trace_line": line})
     for tag, tp in other_surfaces(ctx):
         res = validate_trace(ctx, "TraceFinite", tp, stateless=True, chunk_events=12000, tag="c07." + tag)
